@@ -957,23 +957,33 @@ func (ex *Exec) allocateFor(st *State, res Val, t types.Type) {
 		// "the route stores the broker list it was given" would contradict it)
 		if isRepoType(t) {
 			for _, impl := range ex.ctx.implementers(u) {
-				pt, ok := impl.(*types.Pointer)
-				if !ok {
-					continue
+				// *T implements it: the fresh object is a T; T (a struct value) implements it: the fresh box holds a T
+				et := impl
+				if pt, ok := impl.(*types.Pointer); ok {
+					et = pt.Elem()
 				}
-				stt := structOf(pt.Elem())
-				if stt == nil || !isRepoType(pt.Elem()) {
-					continue
-				}
-				for i := 0; i < stt.NumFields(); i++ {
-					ft := stt.Field(i).Type()
-					if k := kindOf(ft); k == KStruct || k == KArray {
-						continue
+				var alloc func(t types.Type)
+				alloc = func(t types.Type) {
+					stt := structOf(t)
+					if stt == nil || !isRepoType(t) {
+						return
 					}
-					for _, c := range leafComps(ft) {
-						upd(typeKey(pt.Elem())+"."+stt.Field(i).Name()+c.Suffix, ArrSort(c.Sort), iv.Ref, isRefComp(ft, c))
+					for i := 0; i < stt.NumFields(); i++ {
+						ft := stt.Field(i).Type()
+						if k := kindOf(ft); k == KArray {
+							continue
+						} else if k == KStruct {
+							if stt.Field(i).Embedded() {
+								alloc(ft) // an embedded struct of a boxed value lives at the same reference
+							}
+							continue
+						}
+						for _, c := range leafComps(ft) {
+							upd(typeKey(t)+"."+stt.Field(i).Name()+c.Suffix, ArrSort(c.Sort), iv.Ref, isRefComp(ft, c))
+						}
 					}
 				}
+				alloc(et)
 			}
 		}
 	}
